@@ -7,6 +7,7 @@ mod field;
 mod poly;
 mod curve;
 mod ser;
+mod pairing;
 
 pub struct Tally {
     pub cases: u64,
@@ -62,6 +63,7 @@ pub fn run(group: &str, seed: u64) -> i32 {
         "curve_msm" => curve::msm(&mut t, seed),
         "curve_ser" => curve::serialization(&mut t),
         "ser_impls" => ser::ser_impls(&mut t, seed),
+        "toy_pairing" => pairing::toy_pairings(&mut t),
         "bigint" => {
             // BigInt<N>, N = 1..4: boundary-limb operands (0, 1, 2^63 +- 1, 2^64 - 1, ...) in the extreme limbs, all pairs,
             // shift amounts 0, 1, 63, 64, 65, 127..129, 64N-1, 64N, 64N+1, 100000; oracle = num-bigint
